@@ -805,7 +805,8 @@ class Gen:
         for _ in range(30):
             name = r.choice(names)
             l1 = r.choice(labs)
-            l2 = r.choice(labs) if r.random() < 0.6 else l1
+            others = [l for l in labs if l != l1]
+            l2 = r.choice(others) if others and r.random() < 0.65 else l1
             s1, s2 = m[l1], m[l2]
             a = {"addCoulombS": lambda: [l1, self.real(), self.real(0.3)],
                  "addCoulombP": lambda: [l1, self.real(), self.real(), self.real(), self.real(0.4)],
